@@ -452,3 +452,8 @@ func (c01) Run(plan interface{}, schedSeed uint64, replay []simrt.Choice, lenien
 	v.Sample = map[string]interface{}{"logical": p.Logical, "messages": ms}
 	return v, out
 }
+
+// RequiredProbes: a batch in which one of these never fired explored nothing of that kind (exit 2, not a pass).
+func (c01) RequiredProbes() []string {
+	return []string{"boundary:d=+0", "boundary:d=-1", "boundary:d=+1", "packet-size-change"}
+}
